@@ -36,7 +36,7 @@ def instances(tier):
                         if q and hist == "2clear" and mode != "bytes":
                             continue
                         out.append(Instance("draw.%dx%d.%s.%s.%s.%s" % (c, r, mode, "bce" if bce else "nobce", enc, hist), "h_draw",
-                                            {"cols": c, "rows": r, "bce": bce, "enc": enc, "hist": hist, "mode": mode, "both": not q}, timeout=600 if q else 3600))
+                                            {"cols": c, "rows": r, "bce": bce, "enc": enc, "hist": hist, "mode": mode, "both": (not q) or (mode == "cs" and c * r <= 2)}, timeout=600 if q else 3600))
     for (c1, r1), (c2, r2) in (((3, 2), (2, 2)), ((2, 1), (3, 2)), ((2, 2), (2, 1))):
         out.append(Instance("resize.%dx%d.to.%dx%d" % (c1, r1, c2, r2), "h_draw", {"cols": c1, "rows": r1, "bce": True, "enc": "ascii", "hist": "resize", "mode": "bytes", "cols2": c2, "rows2": r2}, timeout=600))
     return out
